@@ -233,6 +233,15 @@ def mutations(params):
                 yield "struct-as-array", path, setp(params, path, [v.get(f) for f in order])
 
 
+def drop_nulls(v):
+    """null-valued optional members are equivalent to absent ones"""
+    if isinstance(v, dict):
+        return {k: drop_nulls(x) for k, x in v.items() if x is not None}
+    if isinstance(v, list):
+        return [drop_nulls(x) for x in v]
+    return v
+
+
 def flag_combos(step):
     canon = MODE.get(step)
     for more in (False, True):
@@ -419,7 +428,7 @@ def main(tier, replay):
                     if not second:
                         continue
                     b = rng.pick(second)
-                    if b[2] == base["parameters"]:
+                    if drop_nulls(b[2]) == drop_nulls(base["parameters"]):
                         # the second mutation undid the first: that is the canonical request again
                         continue
                     work.append((k, "pair:%s+%s" % (a[0], b[0]), a[1] + b[1], dict(base, parameters=b[2]), "keep" if ("client_id",) in (a[1][:1], b[1][:1]) else "own"))
